@@ -315,6 +315,8 @@ ConcCase gen_conc(const std::string& property, const std::string& tier, uint64_t
     k = wl.pick(ks);
 #if defined(SIM_TSAN)
     if (wl.chance(0.04)) k = static_cast<int>(wl.range(9, 64));
+    // A crowd: per-thread state kept in a fixed-size table (128, 256, 512 slots ...) only aliases beyond that many threads.
+    if (wl.chance(0.003)) k = static_cast<int>(wl.pick(std::vector<int>{130, 257, 300, 513, 520}));
 #else
     if (wl.chance(0.015)) k = static_cast<int>(wl.pick(std::vector<int>{9, 16, 17, 32, 33, 64}));   // thread counts around powers of two, also without TSan
 #endif
